@@ -535,6 +535,17 @@ class ExecutionState:
         else:
             logger.debug("Enqueued checkpoint operation for asynchronous processing")
 
+    def raise_if_orphaned(self, operation_id: str) -> None:
+        """Raise OrphanedChildException if the operation is under a context that has completed.
+
+        Operations that already exist (for example a step found READY or STARTED on replay) send
+        no START before their user code runs, so create_checkpoint cannot reject them in time.
+        """
+        with self._parent_done_lock:
+            if operation_id in self._parent_done:
+                error_msg = "Parent context completed, child operation cannot proceed"
+                raise OrphanedChildException(error_msg, operation_id=operation_id)
+
     def _enqueue_checkpoint(
         self,
         operation_update: OperationUpdate | None,
